@@ -44,9 +44,16 @@ def using_(
             d = reactivex.throw(exception).subscribe(observer, scheduler=scheduler)
             return CompositeDisposable(d, disp)
 
-        return CompositeDisposable(
-            source.subscribe(observer, scheduler=scheduler), disp
-        )
+        subscription = source.subscribe(observer, scheduler=scheduler)
+
+        def dispose() -> None:
+            # release the resource even if tearing down the source raises
+            try:
+                subscription.dispose()
+            finally:
+                disp.dispose()
+
+        return Disposable(dispose)
 
     return Observable(subscribe)
 
